@@ -21,6 +21,9 @@ def run(repo, R):
         _wf = repo.func(_w)
         R.note_function(_wf.qualname)
         check_wrapper_inputs(repo, _wf, R)
+    R.rule("MPT", "every returned block of the moment kernel is derived from the recursion (no data-dependent shortcut)")
+    from .mpt import must_pass_through
+    must_pass_through(repo, R, repo.func(MOMENT))
     R.rule("Se", "moment-order step: M[e] = (P-C) M[e-1] + (i M[e-1,i-1] + j M[e-1,j-1] + (e-1) M[e-2])/(2p), C the moment origin")
     R.rule("S-LEAD", "each table axis is incremented with one centre throughout; the order axis with the moment origin")
     R.rule("AXTYPE-K", "the kernel is well-typed in the axis-provenance domain")
